@@ -41,11 +41,13 @@ func str(s string) Scalar                      { return Scalar{Y: model.QuoteJSO
 var pool = []Scalar{
 	{Y: "null", Cls: 0}, {Y: "~", Cls: 0},
 	{Y: "true", Cls: 1, B: true}, {Y: "false", Cls: 1, B: false},
+	// the other spellings YAML 1.2 reads as booleans / null
+	{Y: "True", Cls: 1, B: true}, {Y: "TRUE", Cls: 1, B: true}, {Y: "False", Cls: 1, B: false}, {Y: "FALSE", Cls: 1, B: false}, {Y: "Null", Cls: 0},
 	num("0", "0", false), num("1", "1", false), num("-1", "-1", false), num("2", "2", false), num("10", "10", false), num("9", "9", false), num("31", "31", false), num("1000", "1000", false),
 	num("0x1F", "31", false), num("0o37", "31", false), num("0xA", "10", false), num("1_000", "1000", false), num("0x3E8", "1000", false),
 	num("9223372036854775807", "9223372036854775807", false), num("-9223372036854775808", "-9223372036854775808", false), num("9223372036854775806", "9223372036854775806", false),
 	num("9007199254740993", "9007199254740993", false), num("9007199254740992", "9007199254740992", false), num("-9007199254740993", "-9007199254740993", false),
-	num("0x7FFFFFFFFFFFFFFF", "9223372036854775807", false), num("2147483648", "2147483648", false), num("-2147483649", "-2147483649", false),
+	num("0x7FFFFFFFFFFFFFFF", "9223372036854775807", false), num("-0x8000000000000000", "-9223372036854775808", false), num("-0x10", "-16", false), num("-16", "-16", false), num("0b11111", "31", false), num("-0o20", "-16", false), num("2147483648", "2147483648", false), num("-2147483649", "-2147483649", false),
 	num("1.0", "1", true), num("1e0", "1", true), num("1.5", "3/2", true), num("-1.5", "-3/2", true), num("0.5", "1/2", true), num("1e3", "1000", true), num("31.0", "31", true), num("2.5e3", "2500", true),
 	num("0.1", "", true), num("0.30000000000000004", "", true), num("0.3", "", true), num("1e-7", "", true), num("-0.0", "0", true), num("9.5", "19/2", true), num("10.25", "41/4", true),
 	num(".inf", "inf", true), num("-.inf", "-inf", true), num("1e300", "", true), num("-1e300", "", true),
@@ -235,6 +237,51 @@ func checkSeq(c SeqCase) hx.Verdict {
 		pv, _ := model.ParseJSON(r[0])
 		for _, e := range pv.Elem {
 			ids = append(ids, int(e.I.Int64()))
+		}
+		// the key expression in its bracket spelling, and over a sequence that also holds null elements: the same
+		// order, a permutation of the input, and the input left as it was (a key expression only reads)
+		withNulls := "[null, " + strings.TrimSuffix(strings.TrimPrefix(strings.TrimSpace(doc), "["), "]") + ", null]\n"
+		if len(c.Elems) == 0 {
+			withNulls = "[null, null]\n"
+		}
+		for _, dd := range []string{doc, withNulls} {
+			// (elements are observed as [tag, id]: JSON cannot carry .inf keys)
+			const obs = " | map([tag, .id])"
+			a, oa := hx.JSONResults("sort_by(.k)"+obs, dd, "yaml")
+			b, ob := hx.JSONResults(`sort_by(.["k"])`+obs, dd, "yaml")
+			if v := bad(oa, dd); v != nil {
+				return *v
+			}
+			if v := bad(ob, dd); v != nil {
+				return *v
+			}
+			if len(a) != 1 || len(b) != 1 || a[0] != b[0] {
+				return hx.Bad("", "sort_by(.k) orders the elements as %v but sort_by(.[\"k\"]) as %v: doc=%s", a, b, dd)
+			}
+			before := hx.Run(".", dd, hx.Opts{})
+			after := hx.Run(`sort_by(.["k"]) as $s | .`, dd, hx.Opts{})
+			if before.OK() && after.OK() && before.Out != after.Out {
+				return hx.Bad("", "sort_by(.[\"k\"]) changed its input: %q became %q", before.Out, after.Out)
+			}
+			in, oi := hx.JSONResults("."+obs, dd, "yaml")
+			if oi.OK() && len(in) == 1 {
+				iv, _ := model.ParseJSON(in[0])
+				sv, _ := model.ParseJSON(b[0])
+				if iv != nil && sv != nil {
+					var x, y []string
+					for _, e := range iv.Elem {
+						x = append(x, e.JSON())
+					}
+					for _, e := range sv.Elem {
+						y = append(y, e.JSON())
+					}
+					sort.Strings(x)
+					sort.Strings(y)
+					if strings.Join(x, "\x00") != strings.Join(y, "\x00") {
+						return hx.Bad("", "sort_by(.[\"k\"]) is not a permutation of its input: elements [tag, id] %s from %s: doc=%s", b[0], in[0], dd)
+					}
+				}
+			}
 		}
 		// idempotence
 		r2, o2 := hx.JSONResults("sort_by(.k) | sort_by(.k) | map(.id)", doc, "yaml")
